@@ -212,6 +212,67 @@ theorem newlabel_gt_present (pre post : List LabEv) (v label : Nat) :
 
 /-! ### version ids -/
 
+/-! ### labels after the counter was repositioned (`set-nextlabel`) -/
+
+theorem nx_run_sorted (x : Nx) (h : x.pNext = x.next) (es : List NxEv) :
+    (∀ l ∈ Nx.run x es, x.next < l) ∧ (Nx.run x es).Pairwise (· < ·) := by
+  induction es generalizing x with
+  | nil => simp [Nx.run]
+  | cons e es ih =>
+    unfold Nx.run
+    cases e with
+    | one =>
+      have hs : (x.step .one).1 = ⟨x.next + 1, x.next + 1⟩ ∧ (x.step .one).2 = [x.next + 1] := by
+        simp [Nx.step, Nx.alloc1, Gen.nextLabelPersistsIssued]
+      rw [hs.1, hs.2]
+      obtain ⟨h1, h2⟩ := ih ⟨x.next + 1, x.next + 1⟩ rfl
+      simp only at h1
+      refine ⟨?_, ?_⟩
+      · intro l hl
+        rcases List.mem_append.1 hl with hl | hl
+        · simp at hl; omega
+        · have := h1 l hl; omega
+      · rw [List.pairwise_append]
+        refine ⟨by simp, h2, ?_⟩
+        intro a ha b hb
+        simp at ha; subst ha
+        exact h1 b hb
+    | many n =>
+      have hs : (x.step (.many n)).1 = ⟨x.next + (n + 1), x.next + (n + 1)⟩ ∧
+          (x.step (.many n)).2 = (List.range (n + 1)).map (· + (x.next + 1)) := by
+        simp [Nx.step, Nx.allocN]
+      rw [hs.1, hs.2]
+      obtain ⟨h1, h2⟩ := ih ⟨x.next + (n + 1), x.next + (n + 1)⟩ rfl
+      simp only at h1
+      refine ⟨?_, ?_⟩
+      · intro l hl
+        rcases List.mem_append.1 hl with hl | hl
+        · simp only [List.mem_map, List.mem_range] at hl
+          obtain ⟨k, _, rfl⟩ := hl; omega
+        · have := h1 l hl; omega
+      · rw [List.pairwise_append]
+        refine ⟨?_, h2, ?_⟩
+        · rw [List.pairwise_map]
+          exact List.Pairwise.imp (fun {a b} (hab : a < b) => by omega) List.pairwise_lt_range
+        · intro a ha b hb
+          simp only [List.mem_map, List.mem_range] at ha
+          obtain ⟨k, hk, rfl⟩ := ha
+          have := h1 b hb; omega
+    | restart =>
+      have hs : (x.step .restart).1 = ⟨x.pNext, x.pNext⟩ ∧ (x.step .restart).2 = [] := by simp [Nx.step, Nx.restart]
+      rw [hs.1, hs.2, h]
+      simpa using ih ⟨x.next, x.next⟩ rfl
+
+/-- **after `set-nextlabel n` no label is issued twice and labels strictly increase**, for every interleaving of
+    single allocations (cleave, split), span allocations (nextlabel/k) and restarts or crashes at any point
+    between requests — and every issued label is above `n` -/
+theorem repositioned_labels_strict_mono (n : Nat) (es : List NxEv) :
+    (Nx.run (Nx.set n) es).Pairwise (· < ·) ∧ ∀ l ∈ Nx.run (Nx.set n) es, n < l := by
+  have := nx_run_sorted (Nx.set n) rfl es
+  exact ⟨this.2, this.1⟩
+
+example : Nx.run (Nx.set 1000) [.one, .restart, .many 1, .one, .restart, .one] = [1001, 1002, 1003, 1004, 1005] := by decide
+
 /-- the version-id counter never moves backwards and every existing node's id is below it, for every request
     sequence (from C07's invariant): a version id is never issued twice -/
 theorem version_ids_fresh (rs : List Manager.Req) :
